@@ -42,8 +42,10 @@ def _base_roles(roles, fn: FuncInfo, e: ast.expr, env: Dict[str, Set[str]]) -> S
     return set()
 
 
-def rule_index_kind(ctx: Ctx, prog: Program) -> None:
-    ctx.rule("R-INDEX-KIND")
+def _kind_demands(prog: Program):
+    c = getattr(prog, "_kind_demands", None)
+    if c is not None:
+        return c
     roles = get_roles(prog)
     fns = [f for f in prog.all_functions() if ".examples." not in f.module]
     demands: Dict[Tuple[str, str], Dict[str, Tuple[str, int]]] = {}  # (fq, name) -> kind -> (where, line)
@@ -123,6 +125,13 @@ def rule_index_kind(ctx: Ctx, prog: Program) -> None:
                     changed = True
         if not changed:
             break
+    prog._kind_demands = (demands, value_kind, alias, by_fq, n_sites, roles)  # type: ignore[attr-defined]
+    return prog._kind_demands
+
+
+def rule_index_kind(ctx: Ctx, prog: Program) -> None:
+    ctx.rule("R-INDEX-KIND")
+    demands, value_kind, alias, by_fq, n_sites, roles = _kind_demands(prog)
     # a conflict is reported where the two kinds meet, not again in every caller that merely passes the value on
     inherited: Set[Tuple[str, str]] = set()
     for e in roles.edges:
@@ -154,3 +163,124 @@ def rule_index_kind(ctx: Ctx, prog: Program) -> None:
     if not n_bad:
         ctx.ok("R-INDEX-KIND", "no value is used both as a variable index and as a shared-domain index", sample={"index_sites": n_sites, "names_with_a_kind": len(demands)})
     ctx.floor("R-INDEX-KIND:index-sites", n_sites, 10)
+
+
+# ------------------------------------------------------------------------------------------ counts and positions
+def _len_kind(e: ast.expr, params: List[str]) -> Optional[Tuple[str, str]]:
+    """(kind, list) when e is len(<a list whose first axis has a known kind>)"""
+    if isinstance(e, ast.Call) and isinstance(e.func, ast.Name) and e.func.id == "len" and len(e.args) == 1:
+        a = e.args[0]
+        nm = a.attr if isinstance(a, ast.Attribute) else a.id if isinstance(a, ast.Name) else None
+        if nm in AXES and AXES[nm][0]:
+            return AXES[nm][0], nm
+    return None
+
+
+def rule_count_kind(ctx: Ctx, prog: Program) -> None:
+    """The same two index spaces, seen through counts and positions.  (a) An attribute that sizes the shared-domain axis of an engine array
+    (the domain stack, the wake-up table) is a number of shared domains: it may be set from the length of the list of shared domains, not
+    from the length of the variable -> domain table (they differ as soon as two variables share a domain).  (b) A method of the model that
+    returns `len(<list>)` taken before it appends returns a position in that list: if the package uses the result where a variable index is
+    demanded (the variable list of a constraint), the list must be the per-variable one."""
+    ctx.rule("R-INDEX-KIND")
+    # (a) which attributes size a shared-domain axis
+    dom_extents: Dict[str, Tuple[str, int]] = {}
+    for f in prog.all_functions():
+        for n in ast.walk(f.node):
+            if isinstance(n, ast.Assign) and len(n.targets) == 1 and isinstance(n.targets[0], ast.Attribute) and n.targets[0].attr in AXES \
+                    and isinstance(n.value, ast.Call) and n.value.args and isinstance(n.value.args[0], ast.Tuple):
+                shape = n.value.args[0].elts
+                for k, kind in enumerate(AXES[n.targets[0].attr]):
+                    if kind == DOM and k < len(shape) and isinstance(shape[k], ast.Attribute):
+                        dom_extents.setdefault(shape[k].attr, (f"{n.targets[0].attr} in {f.qualname}", n.lineno))
+    n_bad = n_ok = 0
+    for f in prog.all_functions():
+        for n in ast.walk(f.node):
+            if isinstance(n, ast.Assign) and len(n.targets) == 1 and isinstance(n.targets[0], ast.Attribute) and n.targets[0].attr in dom_extents:
+                lk = _len_kind(n.value, f.params)
+                if lk is None:
+                    continue
+                if lk[0] == DOM:
+                    n_ok += 1
+                else:
+                    n_bad += 1
+                    ctx.violation("R-INDEX-KIND", f.path, f.qualname, f"count-kind:{n.targets[0].attr}", f"{f.path}:{n.lineno}",
+                                  f"{f.qualname} sets `{ast.unparse(n.targets[0])}` to the length of `{lk[1]}` (one entry per variable), but that attribute sizes the "
+                                  f"shared-domain axis of {dom_extents[n.targets[0].attr][0]}: as soon as two variables share a domain the engine arrays are "
+                                  "allocated with more domain rows than there are shared domains and the solver cannot be built (ValueError), e.g. "
+                                  "Problem([(0,2),(0,2)], [0,1,0], [0,0,1]) followed by add_variable((0,1))")
+    ctx.floor("R-INDEX-KIND:domain-extent-attributes", len(dom_extents), 1)
+    ctx.floor("R-INDEX-KIND:domain-count-assignments", n_ok + n_bad, 1)
+    if not n_bad:
+        ctx.ok("R-INDEX-KIND", "the attribute sizing the shared-domain axes is only ever set to a number of shared domains", sample={"attributes": sorted(dom_extents), "assignments": n_ok})
+    # (b) positions returned by model methods vs. how the package uses them
+    ret_kind: Dict[str, Tuple[str, str, FuncInfo, int]] = {}
+    for f in prog.all_functions():
+        if not f.cls:
+            continue
+        bound: Dict[str, Tuple[str, str, int]] = {}
+        for n in ast.walk(f.node):
+            if isinstance(n, ast.Assign) and len(n.targets) == 1 and isinstance(n.targets[0], ast.Name):
+                lk = _len_kind(n.value, f.params)
+                if lk:
+                    bound[n.targets[0].id] = (lk[0], lk[1], n.lineno)
+        for n in ast.walk(f.node):
+            if isinstance(n, ast.Return) and isinstance(n.value, ast.Name) and n.value.id in bound:
+                ret_kind[f.name] = (bound[n.value.id][0], bound[n.value.id][1], f, n.lineno)
+    n_uses = 0
+    for f in prog.all_functions():
+        # names bound to the result of such a method, then used inside the variable list of a posted constraint
+        res: Dict[str, str] = {}
+        for n in ast.walk(f.node):
+            if isinstance(n, ast.Assign) and len(n.targets) == 1 and isinstance(n.targets[0], ast.Name) and isinstance(n.value, ast.Call) \
+                    and isinstance(n.value.func, ast.Attribute) and n.value.func.attr in ret_kind:
+                res[n.targets[0].id] = n.value.func.attr
+        if not res:
+            continue
+        for n in ast.walk(f.node):
+            if isinstance(n, ast.Call) and isinstance(n.func, ast.Attribute) and n.func.attr in ("add_propagator", "add_propagators") and n.args:
+                tuples = [t for t in ast.walk(n.args[0]) if isinstance(t, ast.Tuple) and len(t.elts) == 3]
+                for t in tuples:
+                    for x in ast.walk(t.elts[0]):
+                        if isinstance(x, ast.Name) and x.id in res:
+                            n_uses += 1
+                            kind, lst, g, line = ret_kind[res[x.id]]
+                            if kind != VAR:
+                                ctx.violation("R-INDEX-KIND", g.path, g.qualname, f"returned-position:{g.name}", f"{g.path}:{line}",
+                                              f"{g.qualname} returns a position in `{lst}` (a {kind}) and {f.qualname} uses the result in the variable list of a "
+                                              f"constraint (`{ast.unparse(t.elts[0])[:60]}`), where a {VAR} is demanded: for a model with shared domains the returned "
+                                              "number designates another variable and the constraint is silently posted on it")
+                            else:
+                                ctx.ok("R-INDEX-KIND", f"{g.qualname}: the returned position is a variable index, as its users demand", nontrivial=False)
+    ctx.extra["returned_position_uses"] = n_uses
+    # (c) a value that the code uses as a variable index, validated against the number of shared domains
+    demands, _, alias, _, _, roles_ = _kind_demands(prog)
+    # a parameter is (also) what its callers pass: an argument that its caller uses as a variable index
+    passed: Dict[Tuple[str, str], Dict[str, Tuple[str, int]]] = {}
+    for e in roles_.edges:
+        for j, src in enumerate(e.arg_src):
+            if j < len(e.callee.params) and src.isidentifier():
+                ks_ = demands.get((e.caller.fq, alias.get((e.caller.fq, src), src)), {})
+                for k_, w_ in ks_.items():
+                    passed.setdefault((e.callee.fq, e.callee.params[j]), {}).setdefault(k_, (f"{w_[0]} (argument `{src}` of {e.caller.qualname})", w_[1]))
+    n_cmp = 0
+    for f in prog.all_functions():
+        if ".examples." in f.module:
+            continue
+        for n in ast.walk(f.node):
+            if not (isinstance(n, ast.Compare) and all(isinstance(o, (ast.Lt, ast.LtE, ast.Gt, ast.GtE)) for o in n.ops)):
+                continue
+            operands = [n.left] + list(n.comparators)
+            pairs = [(operands[i], operands[i + 1]) for i in range(len(operands) - 1)]
+            for a0, b0 in pairs:
+              for a_, b_ in ((a0, b0), (b0, a0)):
+                if isinstance(a_, ast.Name) and isinstance(b_, ast.Attribute) and b_.attr in dom_extents:
+                    nm = alias.get((f.fq, a_.id), a_.id)
+                    ks = dict(passed.get((f.fq, nm), {}))
+                    ks.update(demands.get((f.fq, nm), {}))
+                    if VAR in ks and DOM not in ks:
+                        n_cmp += 1
+                        ctx.violation("R-INDEX-KIND", f.path, f.qualname, f"bounded-by-other-count:{a_.id}", f"{f.path}:{n.lineno}",
+                                      f"{f.qualname} compares `{a_.id}`, which it uses as a variable index ({ks[VAR][0]}), with `{ast.unparse(b_)}`, the number of "
+                                      "shared domains: a variable that is a view of a shared domain has an index beyond that number and is refused (or let "
+                                      "through) wrongly, although the same model written with separate variables is accepted")
